@@ -291,6 +291,23 @@ def python_type(textx_type_name):
     }.get(textx_type_name, textx_type_name)
 
 
+class KeywordMatch(RegExMatch):
+    """
+    Keyword-like string match on word boundaries (used for `autokwd`).
+
+    Matches as a regular expression (`keyword\\b`) but, like `StrMatch`,
+    yields the string given in the grammar. With `ignore_case` the regex matches
+    the input in any letter case and the resulting model must be the same as
+    without `autokwd`.
+    """
+
+    def _parse(self, parser):
+        terminal = super()._parse(parser)
+        if terminal is not None:
+            terminal.value = self.to_match
+        return terminal
+
+
 class RuleCrossRef:
     """
     Used during meta-model parser construction for cross reference resolving
@@ -1071,7 +1088,7 @@ class TextXVisitor(RRELVisitor):
         if self.metamodel.autokwd:
             match = self.keyword_regex.match(to_match)
             if match and match.span() == (0, len(to_match)):
-                regex_match = RegExMatch(
+                regex_match = KeywordMatch(
                     rf"{to_match}\b",
                     ignore_case=self.metamodel.ignore_case,
                     str_repr=to_match,
